@@ -48,6 +48,10 @@ func (state *State) VerifClone() *State {
 	c.pendingSync = state.pendingSync
 	c.lastSavedHash = state.lastSavedHash
 	c.pendingBlockSize = state.pendingBlockSize
+	if state.processingBlock != nil {
+		h := *state.processingBlock
+		c.processingBlock = &h
+	}
 	for _, r := range state.blocksRequested {
 		cr := *r
 		c.blocksRequested = append(c.blocksRequested, &cr)
